@@ -45,3 +45,86 @@ PROPS["C17"] = {
             "repeated/mixed order and data lengths 0..300 (non-trivial = at least 2 calls); rs-degrees: every count once ascending and descending.",
     "assumptions": COMMON_ASSUMPTIONS + ["Divide/Invers are only required for non-zero divisors; Encode only for 1 <= eccCount <= size-1"],
 }
+
+RT_NOTE = "trusted: the reference decoder and frozen tables in harness/ref (self-tested at start against structural rules and against the expected symbols of the library's own test-suite, parsed as data)"
+
+PROPS["C05"] = {
+    "technique": "round-trip property testing: rapid-generated Code 128 texts (code-set transition grammar) + exhaustive short strings, decoded by an independent reference decoder",
+    "level_text": "exploration: generated texts over the 132-symbol alphabet (digit runs, FNC1 inside digit runs, control/lower alternation, 79/80/81 rune boundary) are encoded with both checksum variants, decoded from the pixels by an independent Code 128 decoder (frozen pattern table, sets A/B/C, modulo-103 check) and compared with the input; all strings of length 1..2 and short strings over a sub-alphabet are enumerated",
+    "level_note": RT_NOTE,
+    "parts": [
+        {"name": "regression", "kind": "plain", "test": "TestReplayDir"},
+        {"name": "exhaustive", "kind": "plain", "test": "TestC05Exhaustive"},
+        {"name": "rapid", "kind": "rapid", "test": "TestC05Rapid", "checks": {"quick": 120000, "thorough": 4000000}},
+    ],
+    "universes": {"code128_patterns": [str(i) for i in range(106)], "set_transitions": ["AB", "AC", "BA", "BC", "CA", "CB"], "start_set": ["A", "B", "C"]},
+    "rule": "content = 1..8 grammar segments (digit runs 1..12, FNC1 at even/odd offsets in digit runs, control chars, lower case, A/B-common chars, FNC1-4, DEL, "
+            "long tails reaching 78..85 runes) truncated around the 80-rune limit, 1 in 10 deliberately invalid; x both checksum variants. "
+            "Non-trivial = accepted and the symbol contains at least one code-set switch or FNC character; distinct by (content, variant).",
+    "assumptions": COMMON_ASSUMPTIONS,
+}
+
+PROPS["C06"] = {
+    "technique": "exhaustive enumeration (all 7- and 8-digit inputs in thorough) + covering set of EAN-13 (first digit, position, digit) cells + rapid-generated valid/invalid inputs, decoded by an independent EAN decoder with its own GS1 check digit",
+    "level_text": "exploration, exhaustive for EAN-8 in the thorough tier: acceptance must equal the independent rule (digits, length 7/12, or 8/13 with the right GS1 check digit), the 67/95-module symbol is decoded through own L/G/R tables and parity patterns and must equal Content() and the completed input; kind string checked",
+    "level_note": RT_NOTE,
+    "parts": [
+        {"name": "regression", "kind": "plain", "test": "TestReplayDir"},
+        {"name": "covering", "kind": "plain", "test": "TestC06Covering"},
+        {"name": "exhaustive", "kind": "plain", "test": "TestC06Exhaustive"},
+        {"name": "rapid", "kind": "rapid", "test": "TestC06Rapid", "checks": {"quick": 300000, "thorough": 3000000}},
+    ],
+    "universes": {"ean13_cells": [f"{a}/{p}/{d}" for a in "0123456789" for p in range(1, 13) for d in "0123456789"],
+                  "ean8_cells": [f"{p}/{d}" for p in range(8) for d in "0123456789"]},
+    "rule": "rapid: 7/8/12/13-digit strings with right and random check digits, wrong lengths 0..20, non-digits at every position, the encoder's internal markers "
+            "'B'/'F' as last characters, multi-byte runes. covering: each of the 1200 (first digit, position, digit) cells of EAN-13 x 10 completions. "
+            "exhaustive: quick every 97th 7-digit string with its ten 8-digit extensions, thorough all 10^7 + 10^8. Non-trivial = accepted; distinct by input string.",
+    "assumptions": COMMON_ASSUMPTIONS,
+}
+
+PROPS["C07"] = {
+    "technique": "round-trip property testing with exhaustive enumeration of lengths 0..2 (basic: 0..3 in thorough) in all option mixes, independent Code 39 / Code 93 decoders and full-ASCII resolution",
+    "level_text": "exploration with exhaustive short-string sub-domain: every generated text x includeChecksum x fullASCII x {Code 39, Code 93} is encoded, the bars are decoded with independent pattern tables (Code 39 built from its 2-of-5 structure), check characters must be present iff requested and correct (mod 43; C/K mod 47 with weights 20/15), the remaining characters must resolve to exactly the input",
+    "level_note": RT_NOTE,
+    "parts": [
+        {"name": "regression", "kind": "plain", "test": "TestReplayDir"},
+        {"name": "exhaustive", "kind": "plain", "test": "TestC07Exhaustive"},
+        {"name": "rapid", "kind": "rapid", "test": "TestC07Rapid", "checks": {"quick": 100000, "thorough": 3000000}},
+    ],
+    "rule": "rapid: strings of length 0..60 over the 43-character alphabet (basic) or ASCII 0..127 (full ASCII), 1 in 6 with an invalid tail ('*', lower case, "
+            "runes > 127, invalid UTF-8); exhaustive: all strings of length 0..2 (basic alphabet 0..3 in thorough). Non-trivial = accepted with length >= 1; "
+            "distinct by (symbology, flags, content).",
+    "assumptions": COMMON_ASSUMPTIONS + ["Code 93 basic mode with the four shift placeholders U+00F1..F4 in the input is not judged (either outcome allowed)"],
+}
+
+PROPS["C08"] = {
+    "technique": "round-trip property testing with exhaustive enumeration (Codabar strings up to length 6, digit strings up to length 7 in thorough) against run-length reference decoders and an independent 3-1 weighted check",
+    "level_text": "exploration with exhaustive sub-domains: acceptance must equal the stated grammar (Codabar start/body/stop; non-empty digits, even length for interleaved), accepted symbols are decoded from run lengths (own narrow/wide tables, start/stop, gaps) and must equal the input; AddCheckSum must return input+digit with the 3-1 weighted sum (check digit weight 1) divisible by ten",
+    "level_note": RT_NOTE + "; element widths: narrow = 1 module, wide = 2 or 3 modules (the pinned test-suite fixes 2-module wide bars in the standard start/stop and 3-module wide data bars)",
+    "parts": [
+        {"name": "regression", "kind": "plain", "test": "TestReplayDir"},
+        {"name": "exhaustive", "kind": "plain", "test": "TestC08Exhaustive"},
+        {"name": "rapid", "kind": "rapid", "test": "TestC08Rapid", "checks": {"quick": 100000, "thorough": 3000000}},
+    ],
+    "universes": {"codabar_chars": list("0123456789-$:/.+ABCD")},
+    "rule": "rapid: Codabar start+0..40 body characters+stop with 1 in 3 mutated (missing start/stop, doubled, trailing newline, foreign characters); digit strings "
+            "of length 1..60 for standard/interleaved/AddCheckSum with 1 in 5 mutated (empty, letters, multi-byte runes giving an even byte length, sign). "
+            "exhaustive: all strings over the 20 Codabar characters up to length 4/6, all digit strings up to length 5/7 x 3 entry points. "
+            "Non-trivial = accepted; distinct by (entry point, content).",
+    "assumptions": COMMON_ASSUMPTIONS,
+}
+
+PROPS["C14"] = {
+    "technique": "property testing of CheckSum() against check values recomputed from the decoded symbol (EAN GS1 digit, Code 128 mod 103, Code 39 mod 43), through 0..3 rounds of Scale; exhaustive over 7-digit EAN inputs in thorough",
+    "level_text": "exploration: for generated EAN/Code 128/Code 39 contents the reported CheckSum() must equal the value recomputed independently from the decoded image, the drawn check character must carry that value, and the value must survive up to 3 scalings",
+    "level_note": RT_NOTE,
+    "parts": [
+        {"name": "regression", "kind": "plain", "test": "TestReplayDir"},
+        {"name": "exhaustive", "kind": "plain", "test": "TestC14Exhaustive"},
+        {"name": "rapid", "kind": "rapid", "test": "TestC14Rapid", "checks": {"quick": 100000, "thorough": 2000000}},
+    ],
+    "rule": "contents from the C05/C06/C07 generators (Code 39 with and without check character, basic and full ASCII), each followed by 0..3 Scale rounds with "
+            "factor 1..3 and margins 0..50; exhaustive: 7-digit EAN inputs (quick every 89th, thorough all), all Code 39 strings of length 1..2, all Code 128 "
+            "strings of length 1..2. Non-trivial = accepted; distinct by (kind, content, options, scale list).",
+    "assumptions": COMMON_ASSUMPTIONS,
+}
